@@ -955,6 +955,105 @@ func CheckC16(c *Ctx) {
 	})
 	c.Extra["assignments_with_at_most_k_optional_metrics_defined"] = enumerated.Load()
 	c.Extra["k"] = c.Pick(4, 5)
+	// COMPLETE over the whole space Nomenclature can depend on: all 1,179,648,000 configurations of the
+	// threat metric E and the 14 environmental metrics, walked in reflected mixed-radix Gray order so that
+	// each configuration is reached from the previous one by ONE Set call on the same object (the object is
+	// therefore also the product of a very long Set history); base and supplemental metrics seeded per chunk.
+	{
+		pre := []int{v.Index("E"), v.Index("CR"), v.Index("IR"), v.Index("AR")}
+		var rest []int
+		for m, me := range v.Metrics {
+			if me.Group == spec.GEnv && m != pre[1] && m != pre[2] && m != pre[3] {
+				rest = append(rest, m)
+			}
+		}
+		nPre := 4 * 4 * 4 * 4
+		var walked atomic.Int64
+		c.Parallel("all-threat-x-environmental-configurations", nPre, 1, func(w *Worker, ci int) {
+			a := gen.KSparseAssign(w.R, v, 0) // random base, nothing optional
+			for _, m := range v.Metrics {
+				_ = m
+			}
+			for mI, me := range v.Metrics {
+				if me.Group == spec.GSupp {
+					a[mI] = uint8(w.R.Intn(len(me.Values)))
+				}
+			}
+			k := ci
+			for _, m := range pre {
+				a[m] = uint8(k % 4)
+				k /= 4
+			}
+			o, fail := Build(api, a, HSetInOrder, w.R, nil)
+			if fail != "" {
+				c.Violate(Violation{Kind: "cannot-build-object", Version: v.Name, Expected: v.Canonical(a), Observed: fail})
+				return
+			}
+			tDef := a[pre[0]] != 0
+			preEnv := a[pre[1]] != 0 || a[pre[2]] != 0 || a[pre[3]] != 0
+			n := len(rest)
+			dig := make([]int, n)
+			foc := make([]int, n+1)
+			dir := make([]int, n)
+			for j := range foc {
+				foc[j] = j
+			}
+			for j := range dir {
+				dir[j] = 1
+			}
+			defined := 0
+			var cnt int64
+			for {
+				// visit
+				want := "CVSS-B"
+				if tDef {
+					want += "T"
+				}
+				if preEnv || defined > 0 {
+					want += "E"
+				}
+				got, p := api.SafeNomencl(o)
+				cnt++
+				if p != nil || got != want {
+					b := a.Clone()
+					for j, m := range rest {
+						b[m] = uint8(dig[j])
+					}
+					c.Violate(Violation{Kind: "wrong-nomenclature", Version: v.Name, Steps: []Step{{Op: "parse", S: v.Canonical(b)}, {Op: "nomenclature"}}, Expected: want + " for " + v.Canonical(b) + " (reached through a Gray-code walk of Set calls)", Observed: fmt.Sprint(got, p), Detail: map[string]any{"case": "all-configurations"}})
+					if c.nviolA.Load() > 200 {
+						break
+					}
+				}
+				// next configuration: exactly one digit moves by one
+				j := foc[0]
+				foc[0] = 0
+				if j == n {
+					break
+				}
+				was := dig[j]
+				dig[j] += dir[j]
+				if dig[j] == 0 || dig[j] == len(v.Metrics[rest[j]].Values)-1 {
+					dir[j] = -dir[j]
+					foc[j] = foc[j+1]
+					foc[j+1] = j + 1
+				}
+				if was == 0 {
+					defined++
+				} else if dig[j] == 0 {
+					defined--
+				}
+				if err, p := probe.SafeSet(o, v.Metrics[rest[j]].Abv, v.Metrics[rest[j]].Values[dig[j]]); err != nil || p != nil {
+					c.Violate(Violation{Kind: "set-accept-mismatch", Version: v.Name, Expected: "legal Set succeeds", Observed: fmt.Sprint(err, p)})
+					break
+				}
+			}
+			w.EvalN(cnt)
+			w.Acc[63] += cnt
+			walked.Add(cnt)
+		})
+		c.Extra["threat_x_environmental_configurations_walked"] = walked.Load()
+		c.Floor("threat x environmental configurations", walked.Load(), 1179648000)
+	}
 	// random assignments in random history styles
 	c.Parallel("random", c.Pick(4_000_000, 400_000_000), 4096, func(w *Worker, i int) {
 		a := gen.MixedAssign(w.R, v)
@@ -975,8 +1074,10 @@ func CheckC16(c *Ctx) {
 		c.Floor("result "+r, c.Counts["result:"+r], 100)
 	}
 	c.SetReport(Report{
-		Rule:        "oracle from the assignment (T iff E defined; E iff any of CR IR AR MAV..MSA defined). COMPLETE: each of the 21 optional metrics as the sole defined metric x each defined value x 3 base backgrounds x 5 history styles; all-but-one; none/all; every pair of optional metrics x all value pairs; EVERY assignment with at most 4 (thorough: 5) optional metrics defined x all their value combinations. Sampled: random assignments (uniform, sparse 1/12, sparse 1/3) in random history styles (stale bits from overwritten values). distinct = distinct assignments",
-		Assumptions: []string{"group membership of each metric per v4.0 specification Table 23"},
+		Rule:        "oracle from the assignment (T iff E defined; E iff any of CR IR AR MAV..MSA defined). COMPLETE: each of the 21 optional metrics as the sole defined metric x each defined value x 3 base backgrounds x 5 history styles; all-but-one; none/all; every pair of optional metrics x all value pairs; EVERY assignment with at most 4 (thorough: 5) optional metrics defined x all their value combinations; ALL 1,179,648,000 configurations of E and the 14 environmental metrics (the whole space the function can depend on besides base/supplemental metrics, which must not matter), walked in Gray-code order by single Set calls. Sampled: random assignments (uniform, sparse 1/12, sparse 1/3) in random history styles (stale bits from overwritten values). distinct = distinct assignments",
+		Exhaustive:  true,
+		DistinctN:   c.Acc[63] + c.Distinct.Count(),
+		Assumptions: []string{"group membership of each metric per v4.0 specification Table 23", "exhaustive over E x all environmental metrics (every value); base and supplemental metrics, which must not matter, are seeded per chunk and covered by the sole-metric / random workloads"},
 	})
 	c.Finish()
 }
